@@ -75,6 +75,9 @@ def run(ctx):
         rng = ctx.rng()
         T = int(rng.choice([1, 2, 3, 4, 5, 6, 8, 10, 3, 6, 17, 40]))
         N = int(rng.integers(1, 31)) if i % 25 else int(rng.integers(100, 400))
+        if i % 97 == 5:
+            T, N = int(rng.choice([130, 150, 257])), int(rng.integers(1, 6))      # more than 128 / 256 time origins per lag
+            ctx.count("series_over_128_frames")
         rank = int(rng.choice([0, 1, 2]))
         d = int(rng.choice([2, 3]))
         cplx = bool(rng.random() < 0.45)
